@@ -1,6 +1,6 @@
 (* C20: the property theorems about the model SchemaGen.v
    (instances of the generic invariant of SchemaGenProofs.v, totality, divergence). *)
-From Coq Require Import List String Ascii ZArith Bool Lia.
+From Coq Require Import List String Ascii ZArith Bool Lia Btauto.
 From Verif Require Import SchemaGen SchemaGenProofs.
 Import ListNotations.
 Open Scope string_scope.
@@ -41,14 +41,19 @@ Lemma refs_render s :
   (orefs_list (k_anyOf s) ++ oref (k_ref s) ++ orefs_dict (k_defs s) ++ orefs_dict (k_props s)
    ++ orefs (k_addl s) ++ orefs (k_pnames s) ++ orefs_list (k_prefix s) ++ orefs (k_items s))%list.
 Proof.
-  destruct s as [sc tp en cn fm ti de ao rf df dv pr ad pn pf it pa ma mi un rq]. unfold render.
-  cbn [k_schema k_type k_enum k_const k_format k_title k_description k_anyOf k_ref k_defs k_default k_props k_addl k_pnames k_prefix k_items k_pattern k_maxItems k_minItems k_unique k_required].
+  destruct s as [sc tp en cn fm ti de ao rf df dv pr ad pn pf it mo mx ex mn en' xl ml pa ma mi un xp mp rq]. unfold render.
+  cbn [k_schema k_type k_enum k_const k_format k_title k_description k_anyOf k_ref k_defs k_default k_props k_addl k_pnames k_prefix k_items k_multipleOf k_maximum k_exMax k_minimum k_exMin k_maxLength k_minLength k_pattern k_maxItems k_minItems k_unique k_maxProps k_minProps k_required].
   repeat rewrite refs_app.
   rewrite (refs_data "$schema") by reflexivity. rewrite (refs_data "type") by reflexivity.
   rewrite (refs_data "title") by reflexivity. rewrite (refs_data "default") by reflexivity.
   rewrite (refs_data "enum") by reflexivity. rewrite (refs_data "const") by reflexivity.
   rewrite (refs_data "format") by reflexivity. rewrite (refs_data "description") by reflexivity.
   rewrite (refs_data "pattern") by reflexivity.
+  rewrite (refs_data "multipleOf") by reflexivity. rewrite (refs_data "maximum") by reflexivity.
+  rewrite (refs_data "exclusiveMaximum") by reflexivity. rewrite (refs_data "minimum") by reflexivity.
+  rewrite (refs_data "exclusiveMinimum") by reflexivity. rewrite (refs_data "maxLength") by reflexivity.
+  rewrite (refs_data "minLength") by reflexivity. rewrite (refs_data "maxProperties") by reflexivity.
+  rewrite (refs_data "minProperties") by reflexivity.
   rewrite (refs_data "maxItems") by reflexivity. rewrite (refs_data "minItems") by reflexivity.
   rewrite (refs_data "uniqueItems") by reflexivity. rewrite (refs_data "required") by reflexivity.
   simpl. rewrite !app_nil_r.
@@ -86,10 +91,12 @@ Section RefsInstance.
     intros H r Hr. rewrite refs_render in Hr. simpl in Hr. destruct o as [d|]; simpl in Hr; [|contradiction].
     eapply H; eauto.
   Qed.
-  Lemma R_dict ks o : (forall d, o = Some d -> G ks d) -> G ks (render (dict_sk o)).
+  Lemma R_dict ks o p : (forall d, o = Some d -> G ks d) -> (forall d, p = Some d -> G ks d) -> G ks (render (dict_sk o p)).
   Proof.
-    intros H r Hr. rewrite refs_render in Hr. simpl in Hr. rewrite app_nil_r in Hr.
-    destruct o as [d|]; simpl in Hr; [|contradiction]. eapply H; eauto.
+    intros H Hp r Hr. rewrite refs_render in Hr. simpl in Hr. rewrite app_nil_r in Hr.
+    apply in_app_iff in Hr. destruct Hr as [Hr|Hr].
+    - destruct o as [d|]; simpl in Hr; [|contradiction]. eapply H; eauto.
+    - destruct p as [d|]; simpl in Hr; [|contradiction]. eapply Hp; eauto.
   Qed.
   Lemma R_listall ks l : Forall (G ks) l -> forall r, In r (refs_list l) -> exists c, r = pfx ++ "/" ++ c /\ In c ks.
   Proof.
@@ -125,6 +132,13 @@ Section RefsInstance.
   Proof. intros r Hr. rewrite refs_render in Hr. destruct lit; [destruct vals as [|v [|w l]]|]; simpl in Hr; contradiction. Qed.
   Lemma R_descr ks s d : G ks (render s) -> G ks (render (set_description s d)).
   Proof. intros H r Hr. apply H. rewrite refs_render in *. destruct d as [[|c d']|]; exact Hr. Qed.
+  Lemma apply_ann_refs c k s : refs (render (apply_ann c k s)) = refs (render s).
+  Proof. rewrite !refs_render. destruct c as [kw z|p|b]; try destruct kw; destruct k; reflexivity. Qed.
+  Lemma R_ann ks cs k s : forallb ann_ok cs = true -> G ks (render s) -> G ks (render (apply_anns cs k s)).
+  Proof.
+    intros _. revert s. induction cs as [|c r IH]; intros s H; [exact H|].
+    simpl. apply IH. intros x Hx. apply H. rewrite apply_ann_refs in Hx. exact Hx.
+  Qed.
   Lemma R_ntobj ks props req :
     (forall k d, In (k, d) props -> G ks d) -> NoDup req -> G ks (render (ntobj_sk props req)).
   Proof.
@@ -163,7 +177,7 @@ Proof.
   intros Hn Hb Hc.
   eapply (build_seq_inv E cfg (refs_ok cfg.(c_prefix)) (R_mono _) (fun ks s => refs_ok cfg.(c_prefix) ks (render s)) (fun _ _ H => H)
                         (fun ks ks' s Hi H => R_mono _ ks ks' _ Hi H)); eauto using R_mono, R_ty, R_any, R_arr, R_dict, R_tuple,
-    R_union, R_ref, R_obj, R_leaf, R_enum, R_descr, R_ntobj, R_default, R_defs, R_schema.
+    R_union, R_ref, R_obj, R_leaf, R_enum, R_descr, R_ann, R_ntobj, R_default, R_defs, R_schema.
 Qed.
 
 Theorem refs_closed_build E cfg fuel wd uri t st d st' :
@@ -174,7 +188,7 @@ Proof.
   intros Hn Hb Hc.
   eapply (build_inv E cfg (refs_ok cfg.(c_prefix)) (R_mono _) (fun ks s => refs_ok cfg.(c_prefix) ks (render s)) (fun _ _ H => H)
                     (fun ks ks' s Hi H => R_mono _ ks ks' _ Hi H)); eauto using R_mono, R_ty, R_any, R_arr, R_dict, R_tuple,
-    R_union, R_ref, R_obj, R_leaf, R_enum, R_descr, R_ntobj, R_default, R_defs, R_schema.
+    R_union, R_ref, R_obj, R_leaf, R_enum, R_descr, R_ann, R_ntobj, R_default, R_defs, R_schema.
 Qed.
 
 (* without all_refs nothing is registered and no reference is emitted *)
@@ -220,10 +234,14 @@ Lemma meta_render s :
   && ometa (k_addl s) && ometa (k_pnames s) && ometa_list (k_prefix s) && ometa (k_items s)
   && match k_maxItems s with Some z => (0 <=? z)%Z | None => true end
   && match k_minItems s with Some z => (0 <=? z)%Z | None => true end
-  && match k_required s with Some l => str_nodup l | None => true end.
+  && match k_required s with Some l => str_nodup l | None => true end
+  && match k_maxLength s with Some z => (0 <=? z)%Z | None => true end
+  && match k_minLength s with Some z => (0 <=? z)%Z | None => true end
+  && match k_maxProps s with Some z => (0 <=? z)%Z | None => true end
+  && match k_minProps s with Some z => (0 <=? z)%Z | None => true end.
 Proof.
-  destruct s as [sc tp en cn fm ti de ao rf df dv pr ad pn pf it pa ma mi un rq]. unfold render.
-  cbn [k_schema k_type k_enum k_const k_format k_title k_description k_anyOf k_ref k_defs k_default k_props k_addl k_pnames k_prefix k_items k_pattern k_maxItems k_minItems k_unique k_required].
+  destruct s as [sc tp en cn fm ti de ao rf df dv pr ad pn pf it mo mx ex mn en' xl ml pa ma mi un xp mp rq]. unfold render.
+  cbn [k_schema k_type k_enum k_const k_format k_title k_description k_anyOf k_ref k_defs k_default k_props k_addl k_pnames k_prefix k_items k_multipleOf k_maximum k_exMax k_minimum k_exMin k_maxLength k_minLength k_pattern k_maxItems k_minItems k_unique k_maxProps k_minProps k_required].
   repeat rewrite meta_app.
   assert (H1: meta_ok (JObj (optkv "$schema" JStr sc)) = true) by (destruct sc; reflexivity).
   assert (H2: meta_ok (JObj (optkv "title" JStr ti)) = true) by (destruct ti; reflexivity).
@@ -235,6 +253,19 @@ Proof.
   assert (H8: meta_ok (JObj (optkv "format" JStr fm)) = true) by (destruct fm; reflexivity).
   assert (H9: meta_ok (JObj (optkv "description" JStr de)) = true) by (destruct de; reflexivity).
   assert (H10: meta_ok (JObj (optkv "pattern" JStr pa)) = true) by (destruct pa; reflexivity).
+  assert (H11: meta_ok (JObj (optkv "multipleOf" JInt mo)) = true) by (destruct mo; reflexivity).
+  assert (H12: meta_ok (JObj (optkv "maximum" JInt mx)) = true) by (destruct mx; reflexivity).
+  assert (H13: meta_ok (JObj (optkv "exclusiveMaximum" JInt ex)) = true) by (destruct ex; reflexivity).
+  assert (H14: meta_ok (JObj (optkv "minimum" JInt mn)) = true) by (destruct mn; reflexivity).
+  assert (H15: meta_ok (JObj (optkv "exclusiveMinimum" JInt en')) = true) by (destruct en'; reflexivity).
+  assert (XL: meta_ok (JObj (optkv "maxLength" JInt xl)) = match xl with Some z => (0 <=? z)%Z | None => true end)
+    by (destruct xl; simpl; [rewrite andb_true_r|]; reflexivity).
+  assert (ML: meta_ok (JObj (optkv "minLength" JInt ml)) = match ml with Some z => (0 <=? z)%Z | None => true end)
+    by (destruct ml; simpl; [rewrite andb_true_r|]; reflexivity).
+  assert (XP: meta_ok (JObj (optkv "maxProperties" JInt xp)) = match xp with Some z => (0 <=? z)%Z | None => true end)
+    by (destruct xp; simpl; [rewrite andb_true_r|]; reflexivity).
+  assert (MP: meta_ok (JObj (optkv "minProperties" JInt mp)) = match mp with Some z => (0 <=? z)%Z | None => true end)
+    by (destruct mp; simpl; [rewrite andb_true_r|]; reflexivity).
   assert (T: meta_ok (JObj (optkv "type" JStr tp)) = match tp with Some t => is_type_name t | None => true end)
     by (destruct tp; simpl; [rewrite andb_true_r|]; reflexivity).
   assert (A: meta_ok (JObj (optkv "anyOf" JArr ao)) = ometa_list ao) by (destruct ao; [apply meta_arr_list|reflexivity]).
@@ -253,8 +284,18 @@ Proof.
     by (destruct mi; simpl; [rewrite andb_true_r|]; reflexivity).
   assert (RQ: meta_ok (JObj (optkv "required" (fun l => JArr (map JStr l)) rq)) = match rq with Some l => str_nodup l | None => true end)
     by (destruct rq; simpl; [rewrite all_strs_map, andb_true_r|]; reflexivity).
-  rewrite H1, H2, H3, H4, H5, H6, H7, H8, H9, H10, T, A, D, P, AD, PN, PF, IT, MA, MI, RQ.
-  rewrite ?andb_true_l, ?andb_true_r, ?andb_assoc. reflexivity.
+  rewrite H1, H2, H3, H4, H5, H6, H7, H8, H9, H10, H11, H12, H13, H14, H15, T, A, D, P, AD, PN, PF, IT, MA, MI, RQ, XL, ML, XP, MP.
+  rewrite ?andb_true_l, ?andb_true_r.
+  repeat match goal with |- context [match ?o with Some z => (0 <=? z)%Z | None => true end] =>
+    let b := fresh "b" in set (b := match o with Some z => (0 <=? z)%Z | None => true end) end.
+  repeat match goal with |- context [match ?o with Some l => str_nodup l | None => true end] =>
+    let b := fresh "b" in set (b := match o with Some l => str_nodup l | None => true end) end.
+  repeat match goal with |- context [ometa ?o] => let b := fresh "b" in set (b := ometa o) end.
+  repeat match goal with |- context [ometa_list ?o] => let b := fresh "b" in set (b := ometa_list o) end.
+  repeat match goal with |- context [ometa_dict ?o] => let b := fresh "b" in set (b := ometa_dict o) end.
+  repeat match goal with |- context [match ?o with Some t => is_type_name t | None => true end] =>
+    let b := fresh "b" in set (b := match o with Some t => is_type_name t | None => true end) end.
+  btauto.
 Qed.
 
 Lemma str_mem_in s l : str_mem s l = true <-> In s l.
@@ -285,10 +326,12 @@ Proof.
   intros H. unfold Gm. rewrite meta_render. simpl. destruct o as [d|]; simpl; [|reflexivity].
   rewrite (H d eq_refl). reflexivity.
 Qed.
-Lemma M_dict ks o : (forall d, o = Some d -> Gm ks d) -> Gm ks (render (dict_sk o)).
+Lemma M_dict ks o p : (forall d, o = Some d -> Gm ks d) -> (forall d, p = Some d -> Gm ks d) -> Gm ks (render (dict_sk o p)).
 Proof.
-  intros H. unfold Gm. rewrite meta_render. simpl. destruct o as [d|]; simpl; [|reflexivity].
-  rewrite (H d eq_refl). reflexivity.
+  intros H Hp. unfold Gm. rewrite meta_render. simpl.
+  assert (Ho: ometa o = true) by (destruct o as [d|]; [apply (H d eq_refl)|reflexivity]).
+  assert (Hq: ometa p = true) by (destruct p as [d|]; [apply (Hp d eq_refl)|reflexivity]).
+  rewrite Ho, Hq. reflexivity.
 Qed.
 Lemma M_tuple ks l : Forall (Gm ks) l -> Gm ks (render (tuple_sk l)).
 Proof.
@@ -323,6 +366,20 @@ Lemma M_enum ks lit vals : Gm ks (render (enum_sk lit vals)).
 Proof. unfold Gm. rewrite meta_render. destruct lit; [destruct vals as [|v [|w l]]|]; reflexivity. Qed.
 Lemma M_descr ks s d : Gm ks (render s) -> Gm ks (render (set_description s d)).
 Proof. unfold Gm. rewrite !meta_render. destruct d as [[|c d']|]; auto. Qed.
+Lemma apply_ann_meta c k s : ann_ok c = true -> meta_ok (render s) = true -> meta_ok (render (apply_ann c k s)) = true.
+Proof.
+  intros Hc. rewrite !meta_render.
+  destruct c as [kw z|p|b]; try destruct kw; destruct k; cbn [apply_ann]; try (intros H; exact H);
+    cbn [ann_ok] in Hc; intros H;
+    repeat (apply andb_true_iff in H; destruct H as [H ?]);
+    repeat (apply andb_true_iff; split); simpl; auto.
+Qed.
+Lemma M_ann ks cs k s : forallb ann_ok cs = true -> Gm ks (render s) -> Gm ks (render (apply_anns cs k s)).
+Proof.
+  unfold Gm. revert s. induction cs as [|c r IH]; intros s Hc H; [exact H|].
+  simpl in Hc. apply andb_true_iff in Hc. destruct Hc as [Hc1 Hc2].
+  simpl. apply IH; [exact Hc2|]. apply apply_ann_meta; assumption.
+Qed.
 Lemma M_ntobj ks props req :
   (forall k d, In (k, d) props -> Gm ks d) -> NoDup req -> Gm ks (render (ntobj_sk props req)).
 Proof.
@@ -356,7 +413,7 @@ Proof.
   intros Hn Hb Hc.
   destruct (build_seq_inv E cfg Gm M_mono (fun ks s => Gm ks (render s)) (fun _ _ H => H)
                           (fun ks ks' s Hi H => M_mono ks ks' _ Hi H) M_ty M_any M_arr M_dict M_tuple M_union
-                          (fun ks c _ => M_ref ks _) M_obj M_leaf M_enum M_descr M_ntobj M_default M_defs M_schema Hn fuel ts st ds st' Hb Hc) as (A & B & _).
+                          (fun ks c _ => M_ref ks _) M_obj M_leaf M_enum M_descr M_ann M_ntobj M_default M_defs M_schema Hn fuel ts st ds st' Hb Hc) as (A & B & _).
   split; assumption.
 Qed.
 
@@ -368,7 +425,7 @@ Proof.
   intros Hn Hb Hc.
   destruct (build_inv E cfg Gm M_mono (fun ks s => Gm ks (render s)) (fun _ _ H => H)
                       (fun ks ks' s Hi H => M_mono ks ks' _ Hi H) M_ty M_any M_arr M_dict M_tuple M_union
-                      (fun ks c _ => M_ref ks _) M_obj M_leaf M_enum M_descr M_ntobj M_default M_defs M_schema Hn fuel wd uri t st d st' Hb Hc) as (A & B & _).
+                      (fun ks c _ => M_ref ks _) M_obj M_leaf M_enum M_descr M_ann M_ntobj M_default M_defs M_schema Hn fuel wd uri t st d st' Hb Hc) as (A & B & _).
   split; assumption.
 Qed.
 
@@ -453,6 +510,12 @@ Section Total.
     - rewrite sf_wrap. exact (IHt st Hr).
     - rewrite sf_set. destruct (IHt st Hr) as [s [st1 E1]]. rewrite E1. eauto.
     - rewrite sf_dict. destruct (IHt st Hr) as [s [st1 E1]]. rewrite E1. eauto.
+    - rewrite sf_map. destruct Hr as [Hok Hcl]. cbn [ty_ok] in Hok. apply andb_true_iff in Hok. destruct Hok as [Hoa Hok'].
+      cbn [classes_of] in Hcl.
+      destruct (IHt2 st) as [s [st1 E1]]; [split; [exact Hoa|intros d Hd; apply Hcl; apply in_app_iff; left; exact Hd]|].
+      rewrite E1.
+      destruct (IHt1 st1) as [s2 [st2 E2]]; [split; [exact Hok'|intros d Hd; apply Hcl; apply in_app_iff; right; exact Hd]|].
+      rewrite E2. eauto.
     - rewrite sf_tuple. destruct Hr as [Hok Hcl]. rewrite ty_ok_tuple in Hok. rewrite classes_of_tuple in Hcl.
       destruct (map_st_total _ fuel ts H (ready_members fuel ts Hok Hcl) [] st) as [ss [st1 E1]]. rewrite E1. eauto.
     - rewrite sf_union. destruct Hr as [Hok Hcl]. rewrite ty_ok_union in Hok. rewrite classes_of_union in Hcl.
@@ -468,6 +531,8 @@ Section Total.
       apply andb_true_iff in Hok. destruct Hok as [Hg Hok]. rewrite Hg.
       destruct (map_st_total _ fuel ts H (ready_members fuel ts Hok Hcl) [] st) as [ss [st1 E1]]. rewrite E1. eauto.
     - destruct Hr as [Hok _]. discriminate.
+    - rewrite sf_ann. destruct Hr as [Hok Hcl]. cbn [ty_ok] in Hok. apply andb_true_iff in Hok. destruct Hok as [Ha Hok].
+      rewrite Ha. destruct (IHt st) as [s [st1 E1]]; [split; [exact Hok|exact Hcl]|]. rewrite E1. eauto.
   Qed.
 
   Theorem total_fuel : forall fuel, total_at (schema_fuel E cfg fuel) fuel.
@@ -547,7 +612,7 @@ Qed.
 (* ---- overridden serialization: what the rewriting does ---- *)
 Lemma resolve_ty_noop t : resolve_ty [] [] t = t.
 Proof.
-  induction t using ty_ind'; try reflexivity; cbn [resolve_ty table_ov tykey apply_ov first_ser lookup]; try (rewrite IHt; reflexivity).
+  induction t using ty_ind'; try reflexivity; cbn [resolve_ty table_ov tykey okey apply_ov first_ser lookup]; try (rewrite IHt; reflexivity); try (rewrite IHt1, IHt2; reflexivity).
   all: f_equal; induction H as [|x r Hx Hr IH]; simpl; [reflexivity|rewrite Hx; f_equal; exact IH].
 Qed.
 
@@ -558,6 +623,8 @@ Fixpoint covered (dial conf: list (string * ov)) (t: ty) : bool :=
   | None =>
     match t with
     | TList a | TSet a | TDict a | TWrap a => covered dial conf a
+    | TMap k a => covered dial conf a && covered dial conf k
+    | TAnn cs a => forallb ann_ok cs && covered dial conf a
     | TTuple ts => forallb (covered dial conf) ts
     | TUnion ts => match ts with [] => false | _ => forallb (covered dial conf) ts end
     | TNamed _ n ts _ | TTyped n ts _ => str_nodup n && Nat.eqb (List.length n) (List.length ts) && forallb (covered dial conf) ts
@@ -578,6 +645,7 @@ Theorem covered_ok dial conf t : covered dial conf t = true -> ty_ok (resolve_ty
 Proof.
   induction t using ty_ind'; intros Hc; cbn [covered resolve_ty] in *;
     destruct (apply_ov (table_ov dial conf _) _) as [t'|] eqn:Ea; try exact Hc; try (cbn [ty_ok]; apply IHt; exact Hc).
+  - (* map *) cbn [ty_ok]. apply andb_true_iff in Hc. destruct Hc as [Ha Hk]. rewrite (IHt2 Ha), (IHt1 Hk). reflexivity.
   - (* tuple *) rewrite ty_ok_tuple. apply forallb_map_ok; assumption.
   - (* union *) rewrite ty_ok_union. destruct ts as [|t0 tr]; [discriminate|].
     cbn [map]. apply (forallb_map_ok dial conf (t0 :: tr)); assumption.
@@ -585,4 +653,5 @@ Proof.
     rewrite map_length, Hg. apply forallb_map_ok; assumption.
   - (* typed *) rewrite ty_ok_typed. apply andb_true_iff in Hc. destruct Hc as [Hg Hc].
     rewrite map_length, Hg. apply forallb_map_ok; assumption.
+  - (* annotated *) cbn [ty_ok]. apply andb_true_iff in Hc. destruct Hc as [Ha Hc]. rewrite Ha. apply IHt. exact Hc.
 Qed.
